@@ -828,7 +828,10 @@ class ParserField:
             return no_input if isinstance(no_input, bool) else False
 
         if isinstance(no_input, (str, list, set, tuple)):
-            return options.mode in no_input
+            if options.mode in no_input:
+                return True
+            # not disabled by no_input in this mode: the field's own mode still applies
+            no_input = False
 
         if no_input is True:
             return True
@@ -885,7 +888,10 @@ class ParserField:
             return no_output if isinstance(no_output, bool) else False
 
         if isinstance(no_output, (str, list, set, tuple)):
-            return options.mode in no_output
+            if options.mode in no_output:
+                return True
+            # not disabled by no_output in this mode: the field's own mode still applies
+            no_output = False
 
         if no_output is True:
             return True
